@@ -136,7 +136,7 @@ func runC04(c *Ctx) error {
 	chalI := &interner{}
 	type cfgC struct{ ua, sa, ub, sb string }
 	cfgs := []cfgC{{"", "", "", ""}, {"u1", "", "u1", ""}, {"u1", "s1", "u1", "s1"}, {"u1", "s1", "u1", "s2"}, {"u1", "s1", "u1", ""}, {"u1", "", "u2", ""}, {"u1", "s1", "", ""}, {"", "x", "", "x"}}
-	faults := []string{"none", "flip", "flip-unauth", "truncate", "drop", "duplicate", "swap", "replay-earlier-connection", "reflect", "other-challenge", "proof-without-secret", "proof-swapped-addresses", "resigned-by-third-party"}
+	faults := []string{"readdressed", "readdressed", "none", "flip", "flip-unauth", "truncate", "drop", "duplicate", "swap", "replay-earlier-connection", "reflect", "other-challenge", "proof-without-secret", "proof-swapped-addresses", "resigned-by-third-party"}
 
 	nRuns := c.Pick(260, 3000)
 	for run := 0; run < nRuns; run++ {
@@ -216,6 +216,29 @@ func runC04(c *Ctx) error {
 					if sent[own] != nil {
 						return [][]byte{sent[own]}
 					}
+				case "readdressed":
+					// the sender's genuine message body, sealed with the sender's real key, but addressed to a third
+					// router (as in another connection of the sender): responses and acks only
+					if idx < 2 {
+						return [][]byte{d}
+					}
+					fi := parseFrameInfo(d)
+					from := A
+					if idx%2 == 1 {
+						from = B
+					}
+					f, err := craftBuilder.NewFrameV1(fi.src, third.IP, frame.MessageType(fi.ty), nil, c08Body2(d), nil)
+					if err != nil {
+						return [][]byte{d}
+					}
+					f.SetTTL(0)
+					f.SetSequenceTime(time.UnixMilli(frameTimeMs(d)))
+					_ = f.SignRaw(from.id.PrivateKey)
+					f.SetTTL(1)
+					x, _ := f.FrameDataWithMargins(0, 0)
+					x = append([]byte(nil), x...)
+					f.ReturnToPool()
+					return [][]byte{x}
 				case "other-challenge", "proof-without-secret", "proof-swapped-addresses", "resigned-by-third-party":
 					// rebuild the message with the sender's real key (or a third party's)
 					fi := parseFrameInfo(d)
@@ -428,7 +451,7 @@ func runC04(c *Ctx) error {
 				c.Violate("a router with a universe secret completed a handshake with a peer that does not know it (or names another universe)", "universe-admission", map[string]any{"cfg": fmt.Sprint(cf), "fault": fault})
 			}
 			// a fault on an authenticated part of message k must make its receiver abort
-			hard := map[string]bool{"flip": true, "truncate": true, "replay-earlier-connection": true, "reflect": true, "other-challenge": true, "resigned-by-third-party": true}
+			hard := map[string]bool{"readdressed": true, "flip": true, "truncate": true, "replay-earlier-connection": true, "reflect": true, "other-challenge": true, "resigned-by-third-party": true}
 			if hard[fault] && target >= 0 && faultApplied {
 				recvr := eb
 				if target%2 == 1 {
